@@ -19,15 +19,34 @@ MODULE = 'PyTough.Props.C06'
 TARGETS = ['PyTough.Props.C06', 'drv_c05']
 THEOREMS = ['Props.C06.' + t for t in ['scan_reads_selected_lines', 'history_table_eq_cells', 'reversed_key_negated',
                                     'history_leaves_reader_unchanged', 'history_preserves_view',
-                                    'skip_to_nonblank_spins_iff', 'read_until_spins_iff', 'skipto_progresses']]
-LEVEL_TEXT = ('Proof: 8 Lean theorems about the model of t2listing.history(): the one-pass read of the selected rows of a table returns for every '
+                                    'skip_to_nonblank_spins_iff', 'read_until_spins_iff', 'skipto_progresses',
+                                    'history_cell_eq_stepping_cell_partial', 'history_table_eq_stepping_partial',
+                                    'history_series_visits_every_time', 'series_one_value_per_time', 'history_one_table_is_one_scan',
+                                    'ordered_selection_never_spins', 'history_spins_iff_some_position_spins', 'history_table_spins_iff',
+                                    'skip_to_results_line_spins_iff']]
+LEVEL_TEXT = ('Proof: 17 Lean theorems about the model of t2listing.history(): the one-pass read of the selected rows of a table returns for every '
               'entry (any number, any order, repeated rows) exactly the cell that the row reader gives for that row line, with the same exception '
               'when a cell cannot be read (scan_reads_selected_lines, history_table_eq_cells); a reversed connection name yields the negated value; '
               'a history() call that returns leaves index, time, step and every table of the reader unchanged (history_leaves_reader_unchanged, '
-              'for the whole-file model, all simulators). No sorry. Termination is not proved: the model makes non-termination an explicit outcome, three lemmas '
+              'for the whole-file model, all simulators). No sorry. Termination is reduced, not proved outright: the model makes non-termination an explicit outcome, three lemmas '
               'characterise exactly when its line loops spin (only at end of file), '
               '(a skip loop that spins at end of file is `diverges`) and every run compares it with the real call under a 20 s timeout; '
-              'the stepping oracle compares every series value by value.')
+              'the stepping oracle compares every series value by value. '
+              'history_cell_eq_stepping_cell_partial: for the TOUGH2-family row reader (all simulators except the AUTOUGH2 row loop), the value history() picks '
+              'from the k-th row line equals the cell of the table the stepping reader (read_table_TOUGH2) builds from the same lines, under the decidable '
+              'per-file hypothesis that the line\'s key addresses that row and no later line overwrites it. '
+              'history_table_eq_stepping_partial: hence the one-pass read of any selection of one table at one result time returns the stepping reader\'s cells. '
+              'history_series_visits_every_time: a whole history() call that returns (any simulator) has visited every result position in turn, what it appends at a '
+              'position depends on that position only, and each returned series is the concatenation in file order of the per-position values. '
+              'series_one_value_per_time: when each position contributes one value for an item, its series has exactly one value per result time, in time order. '
+              'history_one_table_is_one_scan: at one result position, once the file is at the table, what history() appends for it is exactly that one-pass read over the lines from the first results line on, with the table\'s own read_table_line and column index. '
+              'Termination, whole call (every simulator): history_spins_iff_some_position_spins - the call fails to return iff the selection is non-empty and the read at ONE result position '
+              '(which depends on that position alone) fails to return, all earlier positions having returned; ordered_selection_never_spins - converting the selection never spins; '
+              'history_table_spins_iff - at one position, reading the selected lines of one table fails to return iff no remaining line is a results line of that table (exact); '
+              'skip_to_results_line_spins_iff. Not proved: an exact condition for skip_to_table_* (for AUTOUGH2 only that it can spin nowhere but in skip_to_nonblank, Proofs/ListingSeriesTerm.lean), '
+              'hence no closed well-formedness condition on a file that implies termination of the whole call. '
+              'Still not proved: that row_line[] recorded at set-up equals the row-line offsets used by stepping, that skip_to_table lands on the table (Aligned), '
+              'and the AUTOUGH2 row loop against stepping.')
 LEVEL_NOTE = ('Trusted: Lean kernel (+propext, Classical.choice, Quot.sound); the hand-written whole-file model (history() of the model vs the real call: same '
               'selections, series bit-equal, None/exception class equal, on every run); that the lines history() reaches by skip_to_table + '
               'skip_to_results_line are the lines read_tables reads (the Aligned hypothesis) is checked by the correspondence and the oracle on the '
